@@ -58,6 +58,15 @@ func capCases() []Case {
 						c.Framing = []string{"cl", "chunked", "close"}[i%3]
 					}
 					out = append(out, c)
+					if terminal == "stub" {
+						// the same exchange with every Write followed by Flush (and, in every other one, a Flush before the first Write)
+						f := c
+						f.Prog.FlushBefore = i%4 < 2
+						for k := range parts {
+							f.Prog.FlushAfter = append(f.Prog.FlushAfter, k)
+						}
+						out = append(out, f)
+					}
 				}
 			}
 		}
@@ -73,7 +82,7 @@ func TestC15BufferCap(t *testing.T) {
 		t.Skip("thorough tier only")
 	}
 	sub := lab.Sub(capSub, "enumeration around the 10 MiB buffering cap: body length {10 MiB - 1, 10 MiB, 10 MiB + 1, 12 MiB} x write partitions {1, 2, 3, 4 equal writes; first write ending at cap-1 / cap / cap+1, followed by the rest or by 1 byte + the rest} "+
-		"x {compressible text, incompressible bytes} x terminal {stub, real balancer with Content-Length / chunked / close-delimited backend framing}; levels 1, -1, 0, YAML int/float, implicit/explicit WriteHeader, statuses 200/201/404/500, declared Content-Length and logging-wrapped chains rotate through the grid; "+
+		"x {compressible text, incompressible bytes} x terminal {stub whose handler never flushes / flushes after every write, real balancer with Content-Length / chunked / close-delimited backend framing}; levels 1, -1, 0, YAML int/float, implicit/explicit WriteHeader, statuses 200/201/404/500, declared Content-Length and logging-wrapped chains rotate through the grid; "+
 		"all other eligibility conditions hold (Accept-Encoding: gzip, text/plain vs prefix text/, min_size 1024), so the cap is the only deciding condition; oracle RT, OI (nothing above 10 MiB may be compressed), ID; every case is non-trivial")
 	sub.NontrivialFloor(0.9)
 	sub.Floor("over-buffer-cap", 0.30)
